@@ -182,6 +182,7 @@ class C07(Prop):
         var_t = W.CLASSES[plan["pool"]["vars"][0]["t"]]
         sim.count("probe:kind_" + plan["pool"]["vars"][0]["kind"])
         sig = []
+        states = set()
         faulted = False
         try:
             ref = run.full("q0", pool=twin, quiet=True)
@@ -295,6 +296,8 @@ class C07(Prop):
                     rows = list(slot.rows)
                     sim.counters["rows_last_eval"] = len(rows)
                     sig.append(("eval", delivered, slot.state, len(stream.pulls)))
+                    states.add((n_eval, slot.state, min(len(stream.pulls), 12), len(stream.pulls) == len(items),
+                                ctx_kind, how, plan["pool"]["vars"][0]["kind"], plan["pool"]["vars"][0]["form"]))
                     # clause 3: nothing pulled twice, iter() at most once
                     if len(set(stream.pulls)) != len(stream.pulls):
                         sim.violate("element-pulled-twice", {"pulls": list(stream.pulls)})
@@ -325,6 +328,7 @@ class C07(Prop):
         res.nontrivial = (sim.counters.get("probe:delivered_from_memoised_prefix", 0) > 0
                           and sim.counters.get("probe:delivered_after_fresh_pull", 0) > 0) or faulted
         res.steps = sim.seq
+        res.states = tuple(states)
         return res
 
     def shrink_candidates(self, plan):
